@@ -62,7 +62,7 @@ func genOutput(ch *Choices, big bool, shellSafe bool) []byte {
 		}
 		return []byte(out)
 	}
-	kind := ch.Weighted([]int{4, 4, 3, 2, 1}, "out-kind")
+	kind := ch.Weighted([]int{4, 4, 3, 2, 1, 3}, "out-kind")
 	switch kind {
 	case 0: // one short line
 		return []byte(genWord(ch, 10) + "\n")
@@ -98,6 +98,8 @@ func genOutput(ch *Choices, big bool, shellSafe bool) []byte {
 			sb.WriteString("\n")
 		}
 		return []byte(sb.String())
+	case 5: // coloured / terminal-control output (cut points may fall inside a sequence)
+		return genStream(ch, false)
 	case 3: // quoting hazards for env transport
 		opts := []string{"a=b\n", "x y  z\n", "$HOME `id` $(id)\n", "'single' \"double\"\n", "tab\there\n", "-n\n", "*\n", "\\\\n\n", " lead and trail \n", "\n\n\n"}
 		return []byte(opts[ch.Choose(len(opts), "hazard")])
@@ -349,6 +351,9 @@ func runIntegJob(c *Ctl, job *Job, idx int, res *RunResult) {
 		gen.Names = "ascii"
 		gen.StageGen.CondProb = 8
 		w = GenTaskWorld(c.Ch, gen)
+		// the captured output must not depend on the output format chosen for the terminal
+		w.Format = []string{"raw", "prefixed", "cockpit"}[c.Ch.Weighted([]int{2, 2, 1}, "format")]
+		c.Count("c11_format_" + w.Format)
 	default:
 		res.HarnessErr = "unknown integ profile " + job.Profile
 		return
